@@ -381,10 +381,14 @@ class _rewrite_captured_vars(ast.NodeTransformer):
         return node
 
     def visit_Lambda(self, node: ast.Lambda) -> Any:
+        # Default values are evaluated in the enclosing scope: the parameters do not hide them.
+        a = node.args
+        a.defaults = [self.visit(d) for d in a.defaults]
+        a.kw_defaults = [d if d is None else self.visit(d) for d in a.kw_defaults]
         self._ignore_stack.append(_lambda_parameters(node))
-        v = super().generic_visit(node)
+        node.body = self.visit(node.body)
         self._ignore_stack.pop()
-        return v
+        return node
 
     def visit_ListComp(self, node: Any) -> Any:
         "The targets of the `for` clauses are local to the comprehension: never replace them."
